@@ -167,6 +167,7 @@ func (m *minimizer) run() {
 		func(c *Scenario) bool { ok := c.ParserDelay != 0; c.ParserDelay = 0; return ok },
 		func(c *Scenario) bool { ok := c.Consumer.ThinkMax != 0; c.Consumer.ThinkMax = 0; return ok },
 		func(c *Scenario) bool { ok := c.Consumer.Stalls != nil; c.Consumer.Stalls = nil; return ok },
+		func(c *Scenario) bool { ok := c.Consumer.Sleeps != nil; c.Consumer.Sleeps = nil; return ok },
 		func(c *Scenario) bool { ok := c.Trailer != 0; c.Trailer = 0; return ok },
 		func(c *Scenario) bool { ok := c.Tail != ""; c.Tail = ""; return ok },
 		func(c *Scenario) bool { ok := c.ShutdownAfter != 0; c.ShutdownAfter = 0; return ok },
